@@ -290,7 +290,7 @@ static void gen_piece(rng_t *r, int depth, int inside_args)
     else if (c < 46) { int f = (int)rng_below(r, 3); const char *e = envs[rng_below(r, 5)]; if (f == 0) ga("$%s", e); else if (f == 1) ga("${%s}", e); else ga("$(%s)", e); }
     else if (c < 52) ga("\\%c", "nrtbfave\\$~%'\"x "[rng_below(r, 17)]);
     else if (c < 57) ga("~");
-    else if (c < 62 && !inside_args) { ga("'"); for (int i = rng_range(r, 0, 3); i > 0; i--) { int q = (int)rng_below(r, 6); if (q == 0) ga("~"); else if (q == 1) ga("$V1"); else if (q == 2) ga("\\n"); else if (q == 3) ga("\\'"); else ga("%s", plain[rng_below(r, 10)]); } ga("'"); }
+    else if (c < 62 && !inside_args) { ga("'"); for (int i = rng_range(r, 0, 3); i > 0; i--) { int q = (int)rng_below(r, 8); if (q == 0) ga("~"); else if (q == 1) ga("$V1"); else if (q == 2) ga("\\n"); else if (q == 3) ga("\\'"); else if (q == 4) ga("\\\\"); else if (q == 5) ga("\\%c", "x$~\"nt"[rng_below(r, 7)]); else ga("%s", plain[rng_below(r, 10)]); } ga("'"); }
     else if (c < 66 && !inside_args) { ga("\""); for (int i = rng_range(r, 0, 3); i > 0; i--) { int q = (int)rng_below(r, 5); if (q == 0) ga("~"); else if (q == 1) ga("$V1"); else if (q == 2) ga("\\t"); else ga("%s", plain[rng_below(r, 10)]); } ga("\""); }
     else if (c < 72) {
         if (rng_chance(r, 1, 5)) { static const char *qv[] = { "''", "\"\"", "'two words'", "\"d q\"", "'$V1'", "'~'", "' '" }; ga("%%put(k%u %s)", rng_below(r, 4), qv[rng_below(r, 7)]); }     /* quoted values, the empty one included */
